@@ -1,11 +1,26 @@
 from __future__ import annotations
 
+import re
 from decimal import Decimal
 from typing import Protocol, Any
 
 from . import isoduration
 
 STRICT_VALUE_CHECK = True
+
+_XML_WHITESPACE = ' \t\n\r'
+# lexical spaces of xsd:integer and xsd:decimal (https://www.w3.org/TR/xmlschema-2/#decimal); int(), float() and Decimal()
+# accept much more (underscores, exponents, 'NaN', 'Infinity', non-ascii digits)
+_INTEGER_LEXICAL = re.compile(r'[+-]?[0-9]+')
+_DECIMAL_LEXICAL = re.compile(r'[+-]?(?:[0-9]+(?:\.[0-9]*)?|\.[0-9]+)')
+
+
+def _lexical_value(pattern: re.Pattern, xml_value: str, type_name: str) -> str:
+    """Return xml_value without surrounding xml white space; raise ValueError if it is not in the lexical space."""
+    value = xml_value.strip(_XML_WHITESPACE)
+    if pattern.fullmatch(value) is None:
+        raise ValueError(f'{xml_value!r} is not a valid xsd:{type_name}')
+    return value
 
 
 class DataConverterProtocol(Protocol):
@@ -128,7 +143,7 @@ class TimestampConverter(NullConverter):
     def to_py(cls, xml_value: str) -> float | None:
         if xml_value is None:
             return None
-        return int(xml_value) / 1000
+        return int(_lexical_value(_INTEGER_LEXICAL, xml_value, 'integer')) / 1000
 
     @staticmethod
     def to_xml(py_value) -> str:
@@ -151,6 +166,7 @@ class DecimalConverter(NullConverter):
     def to_py(cls, xml_value: str) -> Decimal | int | float:
         if xml_value is None:
             return None
+        xml_value = _lexical_value(_DECIMAL_LEXICAL, xml_value, 'decimal')
         if cls.USE_DECIMAL_TYPE:
             return Decimal(xml_value)
         if '.' in xml_value:
@@ -212,7 +228,7 @@ class IntegerConverter(NullConverter):
     def to_py(xml_value: str) -> int:
         if xml_value is None:
             return None
-        return int(xml_value)
+        return int(_lexical_value(_INTEGER_LEXICAL, xml_value, 'integer'))
 
     @staticmethod
     def to_xml(py_value: int) -> str:
